@@ -89,7 +89,7 @@ Theorem C18_tie_source_shape :
      "s.rcvLocker.lockIf(func() bool { return msg.RequestID != 0 && atomic.LoadUint32(&s.openingReqID) == msg.RequestID })";
      "s.rcvLocker.waitIfLock()"]%string /\
   src_select_branches = [("<-ctx.Done()", true); ("<-s.disconnected", true); ("msg := <-ch", false); ("<-timer.C", true)]%string /\
-  src_sync_SendRequestWithTimeout = ["s.reqLocker.waitIfLockThen(func() { s.pendingReq.Add(1) })"; "s.pendingReq.Add(1)";
+  src_sync_SendRequestWithTimeout = ["s.reqLocker.waitIfLockThen(func() { verifhook.Point(""sc.req.gateOpen""); s.pendingReq.Add(1) })"; "s.pendingReq.Add(1)";
      "s.getActiveChannelInstance()"; "s.pendingReq.Done()";
      "s.sendRequestWithTimeout(ctx, req, s.nextRequestID(), active, authToken, timeout, h)"; "s.nextRequestID()"]%string.
 Proof. repeat split; reflexivity. Qed.
